@@ -75,7 +75,8 @@ OnceWhy(r) ==
 ContWhy(r) ==
     IF r.fault /= "" THEN "HarnessFault"
     ELSE IF r.send_result /= "nil" THEN "ContendedSendFailed"
-    ELSE IF r.peer_got_good /= 1 \/ Len(r.delivered) /= 1 THEN "ContentionLostOrDuplicatedAMessage"
+    ELSE IF r.peer_got_good /= r.want_peer_good \/ Len(r.delivered) /= 1 THEN "ContentionLostOrDuplicatedAMessage"
+    ELSE IF Len(r.delivered[1].body) /= r.want_len THEN "ContentionDeliveredATornMessage"
     ELSE IF r.first_on_line /= "equipment" THEN "MasterDidNotSendFirst"
     ELSE ""
 
